@@ -708,6 +708,29 @@ def must_pass(body, pred):
     return False
 
 
+def plain_arms(m, allow_guard=()):
+    """None if the match has one unguarded arm per pattern (guards allowed on the variants named in `allow_guard`), else a
+    description of the first offending arm. A rule that tabulates a match by variant name calls this first: a guarded or
+    duplicate arm in front of the tabulated one would otherwise be invisible to it."""
+    seen = set()
+    for a in m["arms"]:
+        vs = [v.split("::")[-1] for v in (pat_top_variants(a["pat"]) or ["_"])]
+        if a.get("guard") is not None and not any(v in allow_guard for v in vs):
+            return "arm `%s` is guarded by `%s`" % (psrc(a["pat"])[:60], src(a["guard"])[:80])
+        pk = norm_arm(a)[0]
+        for alt in pk.split("|"):
+            if alt in seen and alt not in ("_", "$0"):
+                return "pattern `%s` has more than one arm" % alt
+            seen.add(alt)
+    return None
+
+
+def table_is_plain(rep, rule, what, m, allow_guard=()):
+    why = plain_arms(m, allow_guard)
+    return rep.ob(rule, "table-arms-plain:%s" % what, why is None, "one unguarded arm per case" if why is None else
+                  "the %s table has a guarded or duplicate arm (%s): the case it intercepts is decided outside the table this rule reads" % (what, why), m.get("sp"), nontrivial=False)
+
+
 def arms_by_variant(m):
     """{variant short name: [arms]} for a match, keeping *every* arm (guarded duplicates included)."""
     out = {}
